@@ -57,3 +57,86 @@ reg(Prop("C04", "fluxes are non-negative and actual never exceeds potential",
     [R_AX, WATER_NOTE],
     [EXACT, "parameter ranges of espot_ranges (0<=kex, 0<=fwcc<=100, 0<=CCxW<=1, mulch in range) and wf_prof"],
     "as C01 plus canopy cover up to 1 (> 0.966), ponded / mulched / partially wetted fields; monitor: sign and order of every flux column, off-season zeros"))
+
+CROP_NOTE = ("modelled: canopy_cover.py, adjust_CCx.py, update_CCx_CDC.py (Crop/Canopy.v), root_development.py, germination.py, pre_irrigation.py (Crop/Roots.v), "
+             "biomass_accumulation.py, HIref_current_day.py, harvest_index.py, HIadj_*.py and the yield lines of run_single_timestep.py (Crop/Yield.v), kernels (Kernels.v)")
+
+reg(Prop("C05", "crop state stays inside its configured envelope",
+    [("canopy", 6000, 80000), ("roots", 6000, 80000), ("yield", 6000, 80000), ("kernels", 4000, 40000)],
+    trace_mon("C05", 70, 1200, strict=lambda r: r.random() < 0.6),
+    [R_AX, CROP_NOTE],
+    [EXACT, "crop_ok / rc_ok / hi_crop_ok parameter hypotheses (0 < CC0 <= CCx <= 1, CGC > 0, 0 < Zmin <= Zmax in whole centimetres, 0 < HIini < HI0, b_HI >= 1 ...), step_ok = CC0*exp(CGC*dt) <= CCx for one day's time increment; "
+            "penetrabilities in [0,100]; finiteness is expressed as definedness of the modelled operations only",
+     "the cap on the adjusted harvest index is read as HI0*(1+max(dHI0,0)/100): the catalogue's placeholder dHI0 = -9 (SugarCane, AlfalfaGDD) is not an 'allowed increase' (hi_adj_le_refuted documents that HIadj = HIref = HI0 there)"],
+    "L1: genuine crop objects of all 37 crops, chained daily trajectories through every phase (emergence, growth, plateau, senescence, early senescence, rewatering, death), restrictive layers, water tables; "
+    "monitor: trajectories of get_crop_growth() against the season's crop parameters, restrictive-layer soils included"))
+
+reg(Prop("C06", "yields and seasonal totals agree with the daily tables",
+    [("yield", 8000, 80000), ("clock", 100, 1000)],
+    trace_mon("C06", 70, 1200, method=lambda r: r.choice([0, 1, 2, 3, 4, 4, 5]), strict=lambda r: True),
+    [R_AX, CROP_NOTE, "summary-row theorems on Clock.v are closed under the global context and hold for every physics; the plumbing of the row values is Day.v (L2 replay) when present"],
+    [EXACT, "WPy <= 100, ET0 > 0, YldWC > 0 (catalogue_YldWC_refuted lists the 4 catalogue crops without YldWC)"],
+    "L1 yield suite (biomass, HI, yield lines executed from the source text of run_single_timestep), clock suite; monitor: get_simulation_results() vs get_crop_growth()/get_water_flux() per season, "
+    "every strategy incl. net + pre-irrigation + seasonal cap, crops that die early"))
+
+GEN_NOTE = ("the tables StateFields.v / StoreSites.v are REGENERATED from /repo's source text on every run by the fail-closed ast translator harness/gen_facts.py "
+            "(alias rules: plain assignment, attribute, basic index, tuple unpacking, per-function return summaries; heap-mediated aliasing and callables held in variables are not tracked) — the translator is trusted")
+
+reg(Prop("C08", "seasons are independent when the off-season is not simulated",
+    [("day", 40, 400)],
+    worker_mon("C08", monitors2.worker_C08, 36, 500, timeout=600, off_season=False, seasons=lambda r: r.choice([2, 3, 3]), start_mode="at", end_mode="after",
+               method=lambda r: r.choice([0, 1, 1, 2, 2, 3, 4, 4, 5])),
+    ["all theorems 'Closed under the global context' (finite tables, vm_compute lifted by forallb_forall)", GEN_NOTE,
+     "the whitelist carried_ok (21 fields not reset but dead or re-initialised on day 1) is justified by reading the code, field by field, in proofs/GenFactsOK.v; day1_dead in proofs/DayP.v proves it on the Day.v model under named per-process hypotheses"],
+    ["a state field missing from the reset list and not in the hand-justified whitelist breaks carried_fields_whitelisted"],
+    "monitor: multi-season run vs fresh single-season runs started on each later planting date, bitwise after aligning steps: all strategies, dry starts, bunds with initial ponding, GDD crops, time-varying CO2; "
+    "distinct = distinct configurations with >= 1 compared season",
+    replay=lambda d: _base.replay_worker(monitors2.worker_C08, d),
+    extra_obl=["translator run on the current source (fail-closed)"]))
+
+def _c10_monitor(ctx):
+    thorough = ctx["tier"] != "quick"
+    n = 14 if not thorough else 150
+    cfgs = _base.draw_configs("C10", 2 * n)
+    payloads = [{"cfg": cfgs[2 * i], "other": cfgs[2 * i + 1]} for i in range(n)]
+    r = _base.run_monitor(monitors2.worker_C10, payloads, timeout=900)
+    # fresh interpreters, different hash seeds
+    sub = sim.pmap(monitors2.worker_C10_sub, [{"cfg": c, "seeds": [0, 1, 4242, "random"]} for c in cfgs[:(6 if not thorough else 40)]], timeout=900)
+    res = sim.pmap(monitors2.worker_C10, payloads[:0], timeout=10)
+    inproc = {}
+    for s in sub:
+        if "digests" not in s:
+            continue
+        ds = s["digests"]
+        vals = set(ds.values())
+        r["coverage"]["evaluations"] += len(ds)
+        if len(vals) > 1 or any(v.startswith("ERROR") for v in vals):
+            r["violations"].append({"key": "C10:hashseed", "what": "outputs differ between fresh interpreters with different hash seeds: %r" % ds, "kind": "simulation", "cfg": s["cfg"]})
+        else:
+            here = monitors2._digest(s["cfg"])
+            if here not in vals:
+                r["violations"].append({"key": "C10:process", "what": "outputs in this process (after many other models ran) differ from a fresh interpreter: %s vs %r" % (here, ds), "kind": "simulation", "cfg": s["cfg"]})
+    r["coverage"]["fresh_interpreter_runs"] = sum(len(s.get("digests", {})) for s in sub)
+    return r
+
+reg(Prop("C10", "runs are deterministic and model instances are isolated",
+    [],
+    _c10_monitor,
+    ["all theorems 'Closed under the global context'", GEN_NOTE,
+     "PARTIAL: process / hash-seed / import-order behaviour lives in the CPython runtime and is not expressible in the Gallina model; it is explored by the monitor only (fresh interpreters with PYTHONHASHSEED in {0,1,4242,random}, histories A-then-B, interleaved stepping)"],
+    ["the one store on a module-level name (utils/lars.py appends to sys.path at import) is listed by name in reported_sites and excluded from the theorem"],
+    "monitor: implementation vs implementation: B alone / after A constructed / after A run / interleaved with A; fresh subprocesses per hash seed; distinct = distinct (B, A) pairs",
+    replay=lambda d: _base.replay_worker(monitors2.worker_C10, d),
+    extra_obl=["translator run on the current source (fail-closed)"]))
+
+reg(Prop("C12", "configured parameters and weather stay read-only while stepping",
+    [("day", 40, 400)],
+    worker_mon("C12", monitors2.worker_C12, 40, 600, timeout=900),
+    ["all theorems 'Closed under the global context'", GEN_NOTE,
+     "Day.v: day_proc returns the state only — parameters, profile and weather do not occur in its result type (frame by typing), tied by the L2 plumbing replay"],
+    ["exceptions enumerated in GenFactsOK.v: reset_initial_conditions writes the season crop's thermal-calendar fields / fCO2 and CO2.current_concentration; update_time writes the clock counters; "
+     "run_single_timestep sets Aer/Zmin on the deep-copied fallow crop before the first season (reported site)"],
+    "monitor: content hash of every parameter array/struct, the weather matrix and the user objects before the first step and after every step, z_cn / z_germ off compartment boundaries, deepened profiles; "
+    "reports object, field, step",
+    replay=lambda d: _base.replay_worker(monitors2.worker_C12, d),
+    extra_obl=["translator run on the current source (fail-closed)"]))
